@@ -509,6 +509,7 @@ impl Prop for C05 {
             LockFault::Corrupt { field: 1 },
             LockFault::Corrupt { field: 2 },
             LockFault::CompensatedBf { pick: 0 },
+            LockFault::OtherIndex,
         ];
         // a decode of the genuine pair followed by a decode of an altered one (decoders must not
         // remember anything between calls)
@@ -537,6 +538,30 @@ impl Prop for C05 {
                 ],
                 order: vec![0, 0, 0, 0, 0, 0, 0, 0, 0, 0, 0, 0, 0, 0, 1],
                 wire: i % 2 == 0,
+                crash: "none".into(),
+                crash_steps: vec![],
+                entropy: vec![],
+            };
+            v.push(case_of(&plan, json!({})));
+        }
+        // a long siege of one pending payment: 300 wrong candidates, then the right one (a counter
+        // of failed attempts, a bounded retry budget, a list that grows per refusal)
+        {
+            let mut lf = Vec::new();
+            for i in 0..300u64 {
+                lf.push(match i % 4 {
+                    0 => LockFault::WrongBf { mode: 0 },
+                    1 => LockFault::FreshPair,
+                    2 => LockFault::WrongBf { mode: 1 },
+                    _ => LockFault::OtherIndex,
+                });
+            }
+            let plan = Plan {
+                seed: mix(&[seed, 0xC05D]),
+                merchants: vec!["9001".into()],
+                channels: vec![ChanPlan { merchant: 0, cust_bal: 80, merch_bal: 8, est_cs_faults: vec![], est_pt_faults: vec![], payments: vec![PayPlan { amount: 5, cs_faults: vec![], lock_faults: lf, pt_faults: vec![] }], stop_at: 1, stop_stage: "ready".into() }],
+                order: vec![0],
+                wire: false,
                 crash: "none".into(),
                 crash_steps: vec![],
                 entropy: vec![],
@@ -634,6 +659,7 @@ impl Prop for C05 {
             "fault.lock.wrong-blinding-factor",
             "fault.lock.corrupt-pair-encoding",
             "fault.lock.compensated-blinding-factor",
+            "fault.lock.same-secret-other-index",
             "probe.foreign_pair_had_material",
             "probe.corrupt_pair_refused_by_decoder",
             "probe.right_revocation_after_3_wrong",
